@@ -365,9 +365,16 @@ func (h *harness) encCase(r *vx.Rng, s *Schema, api *serix.API, ptr reflect.Valu
 		if err != nil {
 			vx.Die("JSONEncode produced unparsable JSON: %v", err)
 		}
-		canon := tree.clone()
-		canonMaps(s, canon)
-		obs = "(Ok " + canon.coq() + ")"
+		// Go-map objects are expected in the order of their encoded keys (the value term lists them so): not re-sorted here
+		obs = "(Ok " + tree.coq() + ")"
+		if oracle {
+			for i := 0; i < 3; i++ { // same value, same bytes, whatever the map iteration order
+				if e2 := runEncode(api, ptr, val); e2.class != "ok" || string(e2.doc) != string(e.doc) {
+					h.st.Fail(map[string]any{"what": "JSONEncode of the same value gave different documents", "a": short(string(e.doc), 300), "b": short(string(e2.doc), 300)})
+					break
+				}
+			}
+		}
 	case "err":
 		obs = "(Err EType)"
 	}
@@ -482,7 +489,11 @@ func (h *harness) directed() {
 	}
 	// a valid value through the encoder, then out-of-guard times (clamped by design: no oracle)
 	ptr := reflect.New(s.T)
-	must(api.JSONDecode(context.Background(), []byte(directedGood), ptr.Interface()))
+	if o := runDecode(api, s, []byte(directedGood), false); o.class != "ok" {
+		return // already reported by the directed-good case above
+	} else {
+		ptr.Elem().Set(o.val)
+	}
 	h.encCase(nil, s, api, ptr, false, true, "directed")
 	for _, tm := range []time.Time{time.Unix(-5, 0).UTC(), time.Date(3000, 1, 1, 0, 0, 0, 0, time.UTC), time.Date(1500, 1, 1, 0, 0, 0, 0, time.UTC)} {
 		ptr.Elem().Field(7).Set(reflect.ValueOf(tm))
